@@ -8,6 +8,7 @@ import (
 	"sort"
 	"strings"
 	"sync"
+	"sync/atomic"
 	"syscall"
 	"time"
 
@@ -18,9 +19,19 @@ import (
 
 func init() { props["C17"] = runC17 }
 
-type c17Handler struct{ ban bool }
+type c17Handler struct {
+	ban     bool
+	own     string // the only file of the scratch directory this run opens
+	scratch string
+	foreign *int32 // paths of the scratch directory other than `own` presented to this run's handler
+}
 
-func (h c17Handler) CheckRead(string) ptracer.TraceAction { return ptracer.TraceAllow }
+func (h c17Handler) CheckRead(p string) ptracer.TraceAction {
+	if h.scratch != "" && strings.HasPrefix(p, h.scratch) && p != h.own {
+		atomic.AddInt32(h.foreign, 1)
+	}
+	return ptracer.TraceAllow
+}
 func (h c17Handler) CheckWrite(string) ptracer.TraceAction {
 	if h.ban {
 		return ptracer.TraceBan
@@ -82,12 +93,29 @@ func (j c17Job) run(devnull string) c17Result {
 	case "ptrace":
 		dir := filepath.Join(j.tmp, fmt.Sprintf("p%d", j.i))
 		os.Remove(dir)
-		script := fmt.Sprintf("report fds; print %s; sys 258 fdcwd64 s:%s 493; exit %d", tag, dir, code)
-		r, out := runPtraceProbe(RunSpec{Script: script, Filter: tracingFilter(), Handler: c17Handler{ban: j.i%2 == 1}})
+		// the run opens its own file many times: its handler must be asked about that path and no other run's
+		ownFile := filepath.Join(j.tmp, fmt.Sprintf("own-%d-data", j.i))
+		os.WriteFile(ownFile, []byte("x"), 0644)
+		opens := strings.Repeat(fmt.Sprintf("sys 257 fdcwd64 s:%s 0;", ownFile), 120)
+		script := fmt.Sprintf("report fds; print %s; %s sys 258 fdcwd64 s:%s 493; exit %d", tag, opens, dir, code)
+		var foreign int32
+		r, out := runPtraceProbe(RunSpec{Script: script, Filter: tracingFilter(), Handler: c17Handler{ban: j.i%2 == 1, own: ownFile, scratch: j.tmp, foreign: &foreign}})
 		fds, own := c17Fds(out, devnull)
 		_, statErr := os.Stat(dir)
 		os.Remove(dir)
-		return c17Result{fmt.Sprintf("%v/%d err=%q fds[%s] %s made=%v", r.Status, r.ExitStatus, r.Error, fds, c17Lines(out), statErr == nil), own}
+		// the 120 opens return fresh descriptor numbers: keep only how many succeeded
+		okOpens := 0
+		var rest []string
+		for _, ln := range strings.Split(out, "\n") {
+			if strings.HasPrefix(ln, "sys 257 = ") {
+				if !strings.HasPrefix(ln, "sys 257 = -1") {
+					okOpens++
+				}
+				continue
+			}
+			rest = append(rest, ln)
+		}
+		return c17Result{fmt.Sprintf("%v/%d err=%q fds[%s] %s made=%v opens=%d foreign-paths=%d", r.Status, r.ExitStatus, r.Error, fds, c17Lines(strings.Join(rest, "\n")), statErr == nil, okOpens, foreign), own}
 	case "unshare":
 		script := fmt.Sprintf("report fds; report pid; print %s; exit %d", tag, code)
 		r, out := runUnshareProbe(RunSpec{Script: script}, "", nil)
